@@ -82,6 +82,7 @@ VERDICT = TUPLE(BOOL_, STR_, JSON_)     # abstraction of (True, value, tweak) | 
 class ValidateAndGetValues(Contract):
     self_spec = CERT
     params = dict(root_of_trust=ROOT)
+    result = FMAP(NAMES, VERDICT)
     pure = True
     max_paths = 30000
     loop_locals = {0: dict(result=FMAP(NAMES, VERDICT))}
@@ -90,13 +91,13 @@ class ValidateAndGetValues(Contract):
     def loaded(self): return cert_wf(self)
     requires = [loaded]
 
-    def inv_verdicts_so_far(self, result, i):
-        return (results_wf(result, self._elements)
+    def inv_verdicts_so_far(self, result, i, root_of_trust):
+        return (results_wf(result, self._elements, root_of_trust)
                 and forall_int(0, i, lambda k: has_verdict(result, jitem(self._targets, k))))
     invariants = {0: [inv_verdicts_so_far]}
 
     @only("C06")
-    def every_verdict_is_the_specified_one(self, result): return results_wf(result, self._elements)
+    def every_verdict_is_the_specified_one(self, result, root_of_trust): return results_wf(result, self._elements, root_of_trust)
     def every_target_has_a_verdict(self, result):
         return forall_int(0, jlen(self._targets), lambda k: has_verdict(result, jitem(self._targets, k)))
     ensures = [every_verdict_is_the_specified_one, every_target_has_a_verdict]
